@@ -470,9 +470,20 @@ def accepts (s : SchemaD) : Bool := (validate s true).isEmpty
 
 /-! ### the `_is_valid` cache as a state machine -/
 
+/-- The cached verdict and what it stands for. In the code the verdict is stored next to a FINGERPRINT
+    (`_validated_resolvers = _current_resolvers()`): the resolver callables of the schema, of every object / interface
+    type and of every field, and the argument objects of every field, compared BY IDENTITY (`_same_objects`: `is`).
+    The machine does not carry the fingerprint as data: every operation that (re)assigns a callable or an argument list
+    says through its `same` / `seen` flag whether the object handed in IS the one the fingerprint holds, and the step
+    function resets `isValid` exactly when it is not. This is faithful under ONE assumption, which the code meets
+    because the fingerprint holds REFERENCES: a resolver identity recorded in the fingerprint stays alive as long as the
+    state refers to it, so "another object" and "another identity" are the same thing. A fingerprint made of `id()`
+    numbers would break the assumption (a dropped callable can be freed and an incompatible one allocated at the same
+    address, seeded change C13-11): address reuse is OUTSIDE the model and is covered by the correspondence stream M
+    (`address_reuse_case` in harness/corr/C13.py: drop, re-allocate until the address collides, assign, validate). -/
 structure CacheState where
   schema : SchemaD
-  /-- `_is_valid is True` (`false` = `None`; the code never stores `False`) -/
+  /-- `_is_valid is True` (`false` = `None`; the code never stores `False`) AND the fingerprint is current -/
   isValid : Bool := false
   /-- keys of `ResolverMap.resolvers`, `.default_resolvers`, `.subscriptions` -/
   regResolvers : List (String × String) := []
